@@ -435,7 +435,26 @@ impl Runner {
                                 .as_array()
                                 .unwrap_or_else(|| bad("entries"))
                                 .iter()
-                                .map(|e| SMBusRoutingInformationUpdateEntry::new_from_buf(arr4(e)))
+                                .map(|e| {
+                                    // entries that the public constructor can express are built with it (entry
+                                    // type 0-3, reserved nibble clear), the others from their raw bytes
+                                    let b = arr4(e);
+                                    if b[0] < 4 {
+                                        SMBusRoutingInformationUpdateEntry::new(
+                                            match b[0] {
+                                                0 => RoutingInformationUpdateEntryType::SingleEndpointNotBridge,
+                                                1 => RoutingInformationUpdateEntryType::EIDRangeIncludeBridge,
+                                                2 => RoutingInformationUpdateEntryType::SingleEndpointBridge,
+                                                _ => RoutingInformationUpdateEntryType::EIDRangeNotIncludeBridge,
+                                            },
+                                            b[1],
+                                            b[2],
+                                            b[3],
+                                        )
+                                    } else {
+                                        SMBusRoutingInformationUpdateEntry::new_from_buf(b)
+                                    }
+                                })
                                 .collect();
                             rq.routing_information_update(dst, &entries, b)
                         }
